@@ -288,6 +288,10 @@ def css_parse(text):
         return None
     s = text.strip(" \t\r\n\f")
     low = s.lower()
+    if re.match(r"(rgba?|hsla?)\(", low) and low.count("(") == 1 and ")" not in low:
+        # CSS Syntax 3: a function still open at the end of the value is closed there (a parse error that does not
+        # invalidate the value) - 'rgb(1, 2, 3' is 'rgb(1, 2, 3)'
+        low, s = low + ")", s + ")"
     if low in _named():
         v = _named()[low]
         return dict(kind="named", chans=[{int(v[i:i + 2], 16)} for i in (1, 3, 5)], alpha=None)
